@@ -348,7 +348,7 @@ func idCycleDocs(in idCycleInput) map[string]interface{} {
 		node["properties"].(map[string]interface{})["next"] = map[string]interface{}{"type": "array", "items": map[string]interface{}{"allOf": []interface{}{map[string]interface{}{"$ref": "#/definitions/node"}}}}
 	}
 	return map[string]interface{}{"file:///ids/root.json": map[string]interface{}{"swagger": "2.0", "info": map[string]interface{}{"title": "t", "version": "1"},
-		"paths": map[string]interface{}{"/n": map[string]interface{}{"get": map[string]interface{}{"responses": map[string]interface{}{"200": map[string]interface{}{"description": "d", "schema": map[string]interface{}{"$ref": "#/definitions/node"}}}}}},
+		"paths":       map[string]interface{}{"/n": map[string]interface{}{"get": map[string]interface{}{"responses": map[string]interface{}{"200": map[string]interface{}{"description": "d", "schema": map[string]interface{}{"$ref": "#/definitions/node"}}}}}},
 		"definitions": defs}}
 }
 
